@@ -1,4 +1,4 @@
 SPECIFICATION PCSpec
-CONSTANTS Widths = {1, 2} Cuts = {"lel", "fc"} W = {w1, w2, w3} NoW = NoW Kind = "simple" Variant = "none"
+CONSTANTS Widths = {1, 2} Cuts = {"lel", "fc"} W = {w1, w2, w3} NoW = NoW Kind = "simple" PartialPublish = FALSE Variant = "none"
 SYMMETRY Sym
 INVARIANTS C09_RouteExists C03_SameAnswer LbSound C04_NoLostWakeup C04_CompleteOnlyWhenIdle CacheTInSync Counters
